@@ -1326,6 +1326,10 @@ func (in *Interp) evalMulti(fr *Frame, e ast.Expr, n int) []Value {
 					return []Value{VNil{}, VBool{Known: true, V: false}}
 				}
 			}
+			if want == "derive.ObjectGetter" {
+				// the types with an Obj() method: in the abstract input space (no aliases, no type parameters) the defined types
+				want = "*types.Named"
+			}
 			if op.Kind == "" || op.Kind == "other" {
 				if in.decide("A:"+op.Origin+":"+want, 2) == 0 {
 					op.Kind = want
